@@ -333,6 +333,25 @@ pub fn families() -> Vec<Box<dyn Family>> {
             },
         ),
         family(
+            "distinct_boundary",
+            "texts of n DISTINCT lines with n just below 256 / 1000 / 1024 / 2048 / 4096 / 8192 / 32768 / 65536 where the new text swaps a block for up to 900 fresh lines, so that the number of distinct tokens on both sides together crosses the boundary while each side stays below it x lines tokenizer x {Myers, Patience} x {str,[u8]}",
+            true,
+            1,
+            |cfg| if cfg.tiny { 1 } else { cfg.tier.pick(16, 48) },
+            |idx, cfg, out| {
+                let mut rng = Rng::for_case(cfg.seed, "c14.distinct_boundary", idx);
+                let bound = if cfg.tiny { 8 } else { text_gen::BOUNDARIES[(idx % 8) as usize] };
+                let n = bound - 1 - rng.below(bound.min(400) / 4 + 1);
+                let fresh = rng.range(bound - n + 1, (bound - n + 1) + bound.min(900));
+                let drop = rng.below(200.min(n));
+                let (a, b) = text_gen::distinct_lines_pair(&mut rng, n, drop, fresh);
+                out.sample(|| format!("{} distinct old lines, {} fresh new lines (boundary {})", n, fresh, bound));
+                out.nontrivial(&(&a, &b));
+                out.count("distinct_token_boundary_cases");
+                text_case(&a, &b, &[0, 5], &[Algorithm::Myers, Algorithm::Patience], out);
+            },
+        ),
+        family(
             "identify_distinct",
             "IdentifyDistinct::<u8|u16|u32|u64|usize> over seeded random pairs (<= 60 items, alphabets 1..50; u8 only with <= 200 distinct items) with random NON-ZERO sub-range offsets: ids equal <=> items equal within and across sides, ranges preserved, diff through the lookups == diff of the original sub-ranges x 3 algorithms; items repeated only on the new side included",
             false,
